@@ -328,6 +328,8 @@ def shards(tier):
         d, M, seen = dfbfs.build_init(init)
         for op in dfbfs.menu(M, seen):
             out.append({"part": "bfs", "init": init, "prefix": [op], "depth": depth - 1})
+            if op["op"] in dfbfs.INPLACE:
+                out.append({"part": "bfs", "init": init, "prefix": [op], "depth": depth, "hidden_then_any": True})
     return out
 
 
@@ -423,7 +425,9 @@ def run_shard(shard, rec):
             dfbfs.check_history({"init": init, "history": []}, rec, CLAUSES)
             dfbfs.explore(init, [], 1, rec, CLAUSES)
         else:
-            dfbfs.explore(init, prefix, shard["depth"], rec, CLAUSES)
+            last = shard["depth"] - 1
+            filt = (lambda level, op: level == last or op["op"] in dfbfs.INPLACE) if shard.get("hidden_then_any") else None
+            dfbfs.explore(init, prefix, shard["depth"], rec, CLAUSES, op_filter=filt)
         rec.sample({"part": "bfs", "init": dfbfs.INITS[init], "history": prefix})
 
 
